@@ -95,6 +95,9 @@ pub fn datetimes() -> Vec<DateTime<Utc>> {
         Utc.with_ymd_and_hms(2015, 7, 30, 3, 26, 13).unwrap(),
         Utc.timestamp_opt(1_438_226_773, 500_000_000).unwrap(),
         Utc.timestamp_opt(-1, 0).unwrap(),
+        Utc.timestamp_opt(-1, 999_999_999).unwrap(),
+        Utc.timestamp_opt(-14_182_940, 250_000_000).unwrap(),
+        Utc.timestamp_opt(-86_400 * 365 * 300, 1).unwrap(),
         Utc.with_ymd_and_hms(2024, 2, 29, 12, 0, 0).unwrap(),
         Utc.with_ymd_and_hms(9999, 12, 31, 23, 59, 59).unwrap(),
         Utc.with_ymd_and_hms(2016, 12, 31, 23, 59, 59).unwrap(),
@@ -131,7 +134,7 @@ pub fn strings() -> Vec<String> {
         "", "1", "i1", " 5 ", "+5", "-5", "1e5", "inf", "-inf", "NaN", "nan", "infinity", "0.1", ".5", "5.", "abc", "ABC", "aBc", "ß", "İ", "ǆ", "ǅ", "  pad\t\n", "\u{a0}x\u{a0}", "\u{2003}y",
         "2015-07-30T03:26:13Z", "2015-07-30 03:26:13 UTC", "2015-07-30T03:26:13+02:00", "2015-07-30T03:26:13.123456789Z", "2015-13-01T00:00:00Z", "2015-07-30", "+262142-12-31T23:59:59Z", "+262143-01-01T00:00:00Z", "2016-12-31T23:59:60Z",
         "170141183460469231731687303715884105727", "170141183460469231731687303715884105728", "-170141183460469231731687303715884105728", "-170141183460469231731687303715884105729",
-        "79228162514264337593543950335", "79228162514264337593543950336", "1.0000000000000000000000000000001", "0.00000000000000000000000000001", "1_000", "0x10", "1e400", "-1e400", "1e-400",
+        "79228162514264337593543950335", "79228162514264337593543950336", "1.0000000000000000000000000000001", "0.00000000000000000000000000001", "1_000", "0x10", "1e400", "-1e400", "1e-400", "1e-2147483648", "1e2147483647", "7.25E-2147483648", "1e-999999999", "1e999999999", "1e-2147483649", "1E5", "1e5", "1.5e3",
         "a", "b", "bc", "true", "none", "x\"y", "back\\slash", "item1",
         // case mapping that depends on context or changes length: final sigma, ligatures, dotless/dotted i, titlecase digraphs
         "ΟΔΟΣ", "ΑΣ ΑΣ.", "Σ", "aΣb", "ﬁn ﬂ", "ŉ", "ǰ", "ΐ", "ı", "I", "ǈ", "ᾳ", "ᾼ", "straße STRASSE", "éÉ",
